@@ -30,7 +30,7 @@ RULE = ('breadth-first over call sequences of the edit alphabet (refine x 4 bise
         'decompose_columns, reduce, rename_column/-layer single+list, delete_column, add/delete node, column, '
         'connection, layer, well, refine_layers x factor 2|3, both snaps, fit_surface, translate, rotate, '
         'copy_layers_from x 3 layer sources (top at, above, below the old ground), a vertical translate of that '
-        'source geometry, check(fix=True) on a valid mesh, write+read) with column/node/layer arguments as canonical indices and the subset rule '
+        'source geometry, write+read) with column/node/layer arguments as canonical indices and the subset rule '
         'given in bounds; a state is distinct by its name-assignment-free canonical form (node coordinates, column '
         'vertex sequences/surface/centre/layer count, unordered connection pairs, layers, wells, harness-given names, '
         'mesh-validity flag, and which read-only operations ran on the object after how many edits); every '
@@ -81,7 +81,7 @@ ASSUMPTIONS = [
     'must be unchanged; what they answer or raise is not judged (raises are counted as query-raised).  A state that '
     'was observed is distinct from the same geometry never observed (the observation and the number of edits before '
     'it are part of the canonical state; a geometry read from a file is a new object, nothing observed)',
-    'check(fix=True) is offered on a mesh the reference finds valid and promises a valid mesh',
+    'check(fix=True) (observed histories only) is offered on a mesh the reference finds valid and promises a valid mesh',
     'canonical coordinates rounded to 1e-7, fitted surfaces to 1e-6 (fit_surface assembles its matrix in set order)',
 ]
 BOUNDS = {
@@ -101,7 +101,8 @@ BOUNDS = {
                                     'ordered pair, neighbour lists, boundary nodes/polygon/columns, neighbour groups, '
                                     'bounds, kd-tree, quadtree, column_containing_point) and e1, e2 from the topology '
                                     'alphabet (refine, split_column, decompose_columns, reduce, check(fix=True), '
-                                    'delete_column, add_column, add/delete node, add/delete connection, write+read); '
+                                    'delete_column, add_column, add/delete node, add/delete connection, write+read; '
+                                    'check(fix=True) only where the reference finds the mesh valid); '
                                     'e1: singles and the full set, every candidate; e2: first/last single and the '
                                     'full set, first/last candidate, reduced alphabet',
               'depth': {'rect2x2': 2, 'rect3x2': 2, 'mixed6': 2, 'g7': 1, 'rect2x2L': 1, 'rect2x1n': 2, 'hang7r0': 2,
@@ -783,8 +784,9 @@ def ops_of_factory(tier):
                         if len(S) <= 2 and dup_ok(S):
                             ops.append(['decompose_columns', S, 'dup'])
             ops.append(['fit_surface'])
-            # check(fix=True) on a mesh the reference finds valid: whatever it finds to fix, the mesh stays valid
-            ops.append(['check_fix'])
+            if st.get('mode') == 'obs':
+                # check(fix=True) on a mesh the reference finds valid: whatever it finds to fix, the mesh stays valid
+                ops.append(['check_fix'])
         # reduce to an edge-connected proper subset
         for S in subs:
             if len(S) < nc and edge_connected(geo, [cols[i] for i in S]):
